@@ -895,6 +895,221 @@ func foreignChanges(r *vkit.R) {
 	r.Require(r.Counter("batches_with_7_to_11_ready_endpoints") >= int64(n/10), "too few batches with 7..11 ready endpoints")
 }
 
+// cursorPressure: a long history on ONE cluster without any change of the server list. Policy P lists 2..4 endpoints that
+// are ready all the time; policy Q lists 9 other endpoints whose health walks through several hundred different ready
+// sets, with a pick on Q (and sometimes on a policy without subset) in every one of them, as traffic would. P's ready set
+// is stable, so its picks - made by a single picker all along - must stay a strict rotation (every k-window a
+// permutation), and the counts of concurrent batches floor/ceil, however many ready sets the cluster has seen.
+func cursorPressure(r *vkit.R) {
+	n := tierN(r, 12, 120)
+	r.Parallel(n, 6, func(ci int, g *vkit.Rand) {
+		st := &state{Disabled: map[string]bool{}, Healthy: map[string]bool{}}
+		// 14 servers: P's 2..3, Q's 9, and 2..3 spare ones that are always ready and in no subset, so that the ready set of
+		// the policy without subset can never coincide with P's (policies with equal ready lists share a cursor, see the
+		// assumptions of this check)
+		perm := g.Perm(14)
+		for i := 0; i < 14; i++ {
+			e := fmt.Sprintf("https://10.14.2.%d:6443", perm[i]+1)
+			st.Servers = append(st.Servers, e)
+			st.Healthy[e] = true
+		}
+		kP := g.Range(2, 3)
+		subP := append([]string(nil), st.Servers[:kP]...)
+		subQ := append([]string(nil), st.Servers[kP:kP+9]...)
+		st.Policies = []polSpec{{Subset: subP, Res: "r0"}, {Subset: subQ, Res: "r1"}, {Res: "r2"}}
+		b, err := newBed(st)
+		if err != nil {
+			r.Inconclusive("CreateClusterInfo failed: " + err.Error())
+			return
+		}
+		defer b.close()
+		snap := st.clone()
+		stop := make(chan struct{})
+		var sets int64
+		var wg sync.WaitGroup
+		wg.Add(1)
+		qg := g.Fork("q")
+		go func() {
+			defer wg.Done()
+			defer close(stop)
+			atQ, atAll := attrsFor("r1"), attrsFor("r2")
+			seen := map[int]bool{}
+			bits := 0x1ff
+			for i := 0; i < 700; i++ {
+				// flip one or two endpoints of Q (never the ones of P)
+				for f := qg.Range(1, 2); f > 0; f-- {
+					j := qg.Intn(9)
+					bits ^= 1 << uint(j)
+					b.setHealthy(subQ[j], bits&(1<<uint(j)) != 0)
+				}
+				if !seen[bits] {
+					seen[bits] = true
+					atomic.AddInt64(&sets, 1)
+				}
+				vkit.Safely(func() {
+					if p, err := b.ci.MatchAttributes(atQ); err == nil {
+						p.Pop() //nolint
+					}
+					if i%3 == 0 {
+						if p, err := b.ci.MatchAttributes(atAll); err == nil {
+							p.Pop() //nolint
+						}
+					}
+				})
+			}
+		}()
+		// P: one picker, batch after batch until Q's walk is over; all its picks are one sequence of consecutive picks
+		var seq []string
+		total := map[string]int{}
+		batches := 0
+		for done := false; !done; {
+			select {
+			case <-stop:
+				done = true
+			default:
+			}
+			lg := runBatch(b, "r0", 60, 1, batches%2 == 0, nil, nil, resyncOpt{})
+			batches++
+			seq = append(seq, lg.seq...)
+			for e, c := range lg.counts {
+				total[e] += c
+			}
+			if lg.errs > 0 || lg.panics > 0 {
+				lg.tag = "+other-policy-flapping"
+				judge(r, snap, 0, 60, 1, true, lg, fmt.Sprintf("cursor-pressure case=%d", ci))
+				break
+			}
+		}
+		wg.Wait()
+		all := &pickLog{counts: total, seq: seq, tag: "+other-policy-flapping"}
+		r.Eval(1)
+		r.Count("picks", len(seq))
+		r.Count("cursor_pressure_cases", 1)
+		r.Count("cursor_pressure_distinct_ready_sets_of_the_other_policy", int(atomic.LoadInt64(&sets)))
+		if atomic.LoadInt64(&sets) > 300 {
+			r.Count("cursor_pressure_cases_with_more_than_300_ready_sets", 1)
+		}
+		r.Distinct(vkit.Hash64("pressure", strings.Join(subP, ","), fmt.Sprint(len(seq))))
+		judge(r, snap, 0, len(seq), 1, true, all, fmt.Sprintf("cursor-pressure case=%d (%d ready sets of the other policy, %d picks)", ci, atomic.LoadInt64(&sets), len(seq)))
+	})
+	r.Require(r.Counter("cursor_pressure_cases_with_more_than_300_ready_sets") >= int64(n*3/4), "too few long histories in which another policy went through more than 300 ready sets")
+}
+
+// endToEnd: the same statement observed where it matters, at the upstreams: a real gateway (controller, health checker,
+// handler chain) in front of K stub upstreams, a stable ready set, N requests of one policy sent one after the other or
+// by several clients with a barrier at the end; the per-stub arrival counts (by unique request id) must be
+// floor(N/k)..ceil(N/k) for a subset policy and within k! of N/k otherwise - one request is one pick.
+func endToEnd(r *vkit.R) {
+	n := tierN(r, 16, 160)
+	r.Parallel(n, 8, func(ci int, g *vkit.Rand) {
+		K := []int{2, 4, 2, 3, 4, 5}[ci%6]
+		var stubs []*bed.Stub
+		st := &state{Disabled: map[string]bool{}, Healthy: map[string]bool{}}
+		for i := 0; i < K; i++ {
+			s := bed.NewStub(fmt.Sprintf("c14e-%d-%d", ci, i))
+			defer s.Close()
+			stubs = append(stubs, s)
+			st.Servers = append(st.Servers, s.URL)
+			st.Healthy[s.URL] = true
+		}
+		unhealthy := -1
+		if K >= 3 && g.Chance(0.4) { // one endpoint not ready: k = K-1
+			unhealthy = g.Intn(K)
+			stubs[unhealthy].SetHealth(bed.Health500)
+			st.Healthy[stubs[unhealthy].URL] = false
+		}
+		sub := append([]string(nil), st.Servers...)
+		g.Shuffle(sub)
+		st.Policies = []polSpec{{Subset: sub, Res: "r0"}, {Res: "r1"}}
+		gw := bed.NewGateway(bed.GatewayOptions{}).Start()
+		defer gw.Close()
+		tok := gw.Tokens.Add(&user.DefaultInfo{Name: "c14-user", Groups: []string{"system:authenticated"}})
+		host := fmt.Sprintf("c14e-%d.test", ci)
+		var ps []proxyv1alpha1.DispatchPolicy
+		for _, p := range st.Policies {
+			ps = append(ps, proxyv1alpha1.DispatchPolicy{Strategy: proxyv1alpha1.RoundRobin, UpstreamSubset: p.Subset,
+				Rules: []proxyv1alpha1.DispatchPolicyRule{{Verbs: []string{"*"}, APIGroups: []string{"*"}, Resources: []string{p.Res}}}})
+		}
+		obj := bed.BuildCluster(bed.ClusterSpec{Name: host, Servers: st.Servers, Policies: ps, Token: fmt.Sprintf("gwt-c14e-%d", ci)})
+		if sr := gw.Apply(obj); sr.Err != nil || sr.Panic != nil || sr.Requeue {
+			r.Inconclusive(fmt.Sprintf("end-to-end: controller did not apply the cluster: %+v", sr))
+			return
+		}
+		for i, s := range stubs {
+			if i != unhealthy && !gw.WaitReady(host, s.URL, true, 30*time.Second) {
+				r.Inconclusive("end-to-end: stub endpoint did not become ready within the watchdog")
+				return
+			}
+		}
+		if unhealthy >= 0 {
+			// the first probe of the unhealthy one must have been answered, so that the ready set does not change later
+			if !vkit.WaitFor(30*time.Second, func() bool { return stubs[unhealthy].ProbeCount() > 0 }) {
+				r.Inconclusive("end-to-end: no probe reached the unhealthy stub")
+				return
+			}
+			time.Sleep(20 * time.Millisecond)
+		}
+		nid := 0
+		for bi := 0; bi < 3; bi++ {
+			p := g.Intn(2)
+			ready := st.readyList(p)
+			k := len(ready)
+			N := []int{k, 2 * k, k + 1, g.Range(10, 60), g.Range(60, 200)}[g.Intn(5)]
+			if p == 1 {
+				N = k * (3*fact(k) + g.Range(5, 30))
+			}
+			P := []int{1, 1, 2, 4, 8}[g.Intn(5)]
+			prefix := fmt.Sprintf("c14e-%d-%d-", ci, bi)
+			var wg sync.WaitGroup
+			var failed int64
+			ids := make(chan string, N)
+			for i := 0; i < N; i++ {
+				nid++
+				ids <- fmt.Sprintf("%s%d", prefix, nid)
+			}
+			close(ids)
+			for w := 0; w < P; w++ {
+				wg.Add(1)
+				go func() {
+					defer wg.Done()
+					for id := range ids {
+						resp := gw.Do(bed.NewRequest("GET", host, "/api/v1/namespaces/ns/"+st.Policies[p].Res, tok, id, nil))
+						if resp.Err != nil || resp.Status != 200 {
+							atomic.AddInt64(&failed, 1)
+						}
+					}
+				}()
+			}
+			wg.Wait()
+			lg := &pickLog{counts: map[string]int{}, tag: "+through-the-gateway"}
+			arrived := 0
+			for _, s := range stubs {
+				for _, sn := range s.SeenAll() {
+					if strings.HasPrefix(sn.ID, prefix) {
+						lg.counts[s.URL]++
+						arrived++
+					}
+				}
+			}
+			r.Eval(1)
+			r.Count("end_to_end_batches", 1)
+			r.Count("end_to_end_requests", N)
+			if k%2 == 0 {
+				r.Count("end_to_end_batches_with_an_even_number_of_ready_endpoints", 1)
+			}
+			r.Distinct(vkit.Hash64("e2e", fmt.Sprint(K, k, p, N, P)))
+			if failed > 0 || arrived != N {
+				// a request that was not answered 200 or did not arrive exactly once: the batch is not N picks; not judged here
+				r.Count("end_to_end_batches_not_judged", 1)
+				continue
+			}
+			judge(r, st, p, N, P, true, lg, fmt.Sprintf("end-to-end case=%d batch=%d K=%d", ci, bi, K))
+		}
+	})
+	r.Require(r.Counter("end_to_end_batches")-r.Counter("end_to_end_batches_not_judged") >= int64(n*3*9/10), "too few end-to-end batches judged")
+	r.Require(r.Counter("end_to_end_batches_with_an_even_number_of_ready_endpoints") >= int64(n), "too few end-to-end batches with an even number of ready endpoints")
+}
+
 // addDuringPicks: pickers are running (fresh picker per pick, as every request does) WHILE a sync adds a server to a
 // policy without subset. The picks made during the sync are not judged (the ready set is changing). Afterwards the new
 // endpoint is ready and a stable window opens: every ready endpoint, including the new one, must get its share
@@ -1235,7 +1450,7 @@ func TestCheck(t *testing.T) {
 			"every k-window of a single-picker sequence a permutation; no subset -> |count-N/k|<=k!; only ready endpoints of the policy returned; (2) <=60-pick concurrent " +
 			"histories checked with porcupine against fetch-and-increment mod k; (3) large-N batches on policies without subset, k<=4, fresh picker per pick. " +
 			"In 45% of the batches no-op re-syncs (same object, or an object whose annotation / logging mode / flow-control schema changed while servers, disabled flags and policies did not) are delivered through ClusterInfo.Sync between the picks of a single picker or concurrently with the pickers, and in 30% between back-to-back batches: the ready set is unchanged, so the same oracle applies. " +
-			"(5) clusters of up to 12 servers: a subset policy with 2..11 ready endpoints picks while health / disabled flags of servers outside its subset, another policy's subset order and the policy list change. (4) picker goroutines run WHILE a sync adds a server to a policy without subset; then the new endpoint is ready and a stable batch must give every ready endpoint incl. the new one its share. Non-trivial = k>=2 ready endpoints; distinct = hash(kind, ready list, servers, N, pickers). Every-statement schedule points in clusterinfo.go perturb the interleaving.")
+			"(6) cursorPressure: a single picker on a stable subset policy while another policy of the same cluster walks through >300 ready sets with picks in each; (7) endToEnd: real gateway + 2..5 stubs, per-stub arrival counts of N requests under the same bounds. (5) clusters of up to 12 servers: a subset policy with 2..11 ready endpoints picks while health / disabled flags of servers outside its subset, another policy's subset order and the policy list change. (4) picker goroutines run WHILE a sync adds a server to a policy without subset; then the new endpoint is ready and a stable batch must give every ready endpoint incl. the new one its share. Non-trivial = k>=2 ready endpoints; distinct = hash(kind, ready list, servers, N, pickers). Every-statement schedule points in clusterinfo.go perturb the interleaving.")
 		r.Assume("a policy's picks are judged only while no other policy with the same ready set is picking (the implementation keeps one cursor per ready list, as the property's anchors describe)")
 		r.Assume("windows of consecutive picks are not extended across a spec or readiness change of the cluster (a server-list change restarts the cursors)")
 
@@ -1248,6 +1463,8 @@ func TestCheck(t *testing.T) {
 		linHistories(r)
 		addDuringPicks(r)
 		foreignChanges(r)
+		cursorPressure(r)
+		endToEnd(r)
 		vkit.Sched.Enable(seed+1, 0.01, 0.002, 0.00005)
 		largeNoSubset(r)
 		vkit.Sched.Disable()
